@@ -51,6 +51,8 @@ variable (me : Nat)
 @[simp] theorem next_fxReply (s : St) (k v : Nat) (b : Bool) : next me s (.fxReply k v b) = .ok s := rfl
 @[simp] theorem next_fxForget (s : St) (k : Nat) (b : Bool) : next me s (.fxForget k b) = .ok s := rfl
 @[simp] theorem next_callRet (s : St) (k : Nat) (r : CallRes) : next me s (.callRet k r) = .ok s := rfl
+@[simp] theorem next_callSent (s : St) (k : Nat) (b : Bool) : next me s (.callSent k b) = .ok s := rfl
+@[simp] theorem next_polled (s : St) : next me s .polled = .ok s := rfl
 @[simp] theorem next_waitRet (s : St) (w : Nat) (b : Bool) : next me s (.waitRet w b) = .ok s := rfl
 @[simp] theorem next_snap (s : St) (sn : Snap) : next me s (.snap sn) = .ok s := rfl
 @[simp] theorem next_isLocal (s : St) : next me s .isLocal = .ok { s with isLocal := true } := rfl
@@ -1071,7 +1073,7 @@ theorem stepCore_sim (a : Actor) (s : St) (op : AOp) (h : Inv me a s) :
   | spawn sup name nameFree isLocal supOk => exact opSpawn_sim me a s sup name nameFree isLocal supOk h
   | pollSpawn supOk => exact opPollSpawn_sim me a s supOk h
   | dropSpawn => exact opDropSpawn_sim me a s h
-  | poll => exact opPoll_sim me a s h
+  | poll => exact Sim.pollMark _ (next_polled me) (opPoll_sim me a s h)
   | abort => exact opAbort_sim me a s h
   | resume sg => exact opResume_sim me a s sg h
   | _ =>
